@@ -105,8 +105,28 @@ func rulesC06(w *World, o *Out) {
 				}
 			}
 		}
-		o.Check("C06.R1", "AddSignature|duplicate key and duplicate validator are refused", len(cmps) >= 2, w.Pos(as.Pos()),
-			"a scan over the existing SignData comparing PublicKey and ValAddress with the new entry must refuse duplicates (found "+itoa(len(cmps))+" refusing comparisons)")
+		// each refusing comparison is applied to *every* existing entry: no path through one iteration of
+		// the scan reaches the next iteration without evaluating it (`if other validator { continue }` in
+		// front of the key comparison lets a second validator reuse the key)
+		everyElem, skipWhy := true, ""
+		for _, c := range cmps {
+			h := loopHeaderOf(c.Block())
+			if h == nil {
+				everyElem, skipWhy = false, "a refusing comparison is not inside the scan loop"
+				continue
+			}
+			latches := map[ssa.Instruction]bool{}
+			for _, p := range h.Preds {
+				if h.Dominates(p) && len(p.Instrs) > 0 {
+					latches[p.Instrs[len(p.Instrs)-1]] = true
+				}
+			}
+			if bad := ReachAvoiding(as, nil, latches, map[ssa.Instruction]bool{c: true}); bad != nil {
+				everyElem, skipWhy = false, "an iteration of the scan can move on to the next entry without the comparison at "+w.Pos(c.Pos())
+			}
+		}
+		o.Check("C06.R1", "AddSignature|duplicate key and duplicate validator are refused", len(cmps) >= 2 && everyElem, w.Pos(as.Pos()),
+			"a scan over the existing SignData comparing PublicKey and ValAddress with the new entry must refuse duplicates (found "+itoa(len(cmps))+" refusing comparisons) "+skipWhy)
 		for _, a := range adds {
 			hdrOK := false
 			for _, c := range cmps {
